@@ -14,7 +14,18 @@ THEOREMS = ['Tbox.C02.C02_callbacks_legit', 'Tbox.C02.C02_never_early', 'Tbox.C0
             # round 2: TimerPool layer
             'Tbox.C02.C02_pool_doAfter_once', 'Tbox.C02.C02_pool_doEvery_nth', 'Tbox.C02.C02_pool_all_timers', 'Tbox.C02.C02_pool_cancel',
             'Tbox.C02.C02_pool_cleanup', 'Tbox.C02.C02_pool_stale_token', 'Tbox.C02.C02_pool_callbacks_keep_inv', 'Tbox.C02.C02_pool_doAt',
-            'Tbox.C02.fireR_fst']
+            'Tbox.C02.fireR_fst',
+            # round 3: machine widths (Wide.lean), explicit heap through the standard's contract (Heap.lean), waiting time of both engines
+            'Tbox.C02.Wide.C02_wide_deadline_exact', 'Tbox.C02.Wide.C02_wide_rearm_exact', 'Tbox.C02.Wide.C02_wide_kth_deadline',
+            'Tbox.C02.Wide.C02_wide_wrap_counterexample', 'Tbox.C02.Wide.C02_wide_negative_interval', 'Tbox.C02.Wide.C02_wide_zero_interval',
+            'Tbox.C02.Wide.C02_wide_due_full_width', 'Tbox.C02.Wide.C02_wide_dueNarrowed_counterexample', 'Tbox.C02.Wide.C02_wide_delay_exact',
+            'Tbox.C02.Wide.C02_wide_delay_wraps_counterexample', 'Tbox.C02.Wide.C02_wait_bound', 'Tbox.C02.Wide.C02_wait_idle',
+            'Tbox.C02.Wide.C02_wait_bound_epoll', 'Tbox.C02.Wide.C02_wait_epoll_unclamped_counterexample', 'Tbox.C02.Wide.C02_wait_bound_select',
+            'Tbox.C02.Wide.C02_wait_select_short_counterexample', 'Tbox.C02.Wide.C02_wait_bound_engines', 'Tbox.C02.Wide.C02_wide_inv_init',
+            'Tbox.C02.Wide.C02_wide_add_refines', 'Tbox.C02.Wide.C02_wide_delete_exact', 'Tbox.C02.Wide.C02_wide_delete_counterexample',
+            'Tbox.C02.Wide.C02_wide_serve_refines', 'Tbox.C02.Wide.C02_wide_leave_refines',
+            'Tbox.C02.Heap.IsHeap.front_le', 'Tbox.C02.Heap.add_spec', 'Tbox.C02.Heap.popFront_spec', 'Tbox.C02.Heap.repush_spec',
+            'Tbox.C02.Heap.delete_spec']
 SOURCES = vlib.EVENT_SOURCES + vlib.BASE_SOURCES + ['modules/eventx/timer_pool.cpp']
 FLAVOUR = 'asan'
 LIBS = ['-ldl']
@@ -23,30 +34,45 @@ TRUSTED = ['model lean/TboxModel/C02/Model.lean hand-written from common_loop_ti
            'the trace acceptor (every callback the real loop makes must be an enabled fire step of the model, passes must end with nothing due, '
            'all API results, the return values of the calls made inside callbacks and all isEnabled() vectors must agree); the acceptor runs the '
            'same functions the theorems are about (Pool.doAfter/doEvery/doAt/cancel/cleanup, fireR with theorem fireR_fst)',
-           'std::push_heap/pop_heap/make_heap (libstdc++) keep the heap property; deleteTimer removes the zeroed record (all live deadlines > 0)',
-           'virtual monotonic and system clocks by clock_gettime interposition in the harness (harness/vtime.h)',
+           'std::push_heap/pop_heap/make_heap (libstdc++) meet the contract the C++ standard gives them (structure Heap.HeapAlgs: result is a heap / '
+           'a permutation / pop_heap puts the old front last); everything else about the heap - multiset preserved by add/pop/re-push/delete, front '
+           'minimal, deleteTimer removes exactly the addressed record - is proved for every conforming triple (Heap.lean, WideProps.lean)',
+           'Wide.lean (machine widths: UInt64 clock/deadline/interval, Int64 milliseconds::rep and getWaitTime, int delay_ms, epoll INT_MAX clamp, select '
+           'timeval) is tied to the abstract model by per-primitive refinement theorems (C02_wide_add_refines / serve_refines / leave_refines / '
+           'delete_exact), not by a whole-execution simulation; wide cases (flat TimerEvents, any signed interval) are accepted by an acceptor that '
+           'runs Wide.lean on the sorted-vector instance of the heap contract and follows the real heap among records of equal deadline (bringFront)',
+           'virtual monotonic and system clocks by clock_gettime interposition in the harness (harness/vtime.h); the steady clock never reads negative; '
+           'idle passes: epoll_wait/select interposed in the harness report the timeout they are given, advance the virtual clock and return 0',
            'TimerPool cabinet rendered by its contract as repaired (C08_cab_lookup, C08 package): token = serial of the TimerEvent, never reissued; '
            'the deferred deletes of TimerPool (run()/runNext([timer]{delete timer})) are modelled as immediate: between free(token) and the delete '
            'nothing can reach the disabled object',
            'exitLoop(wait) builds its exit timer through the same newTimerEvent/initialize(kOneshot)/enable path as any TimerEvent; it is not '
            'driven separately by the harness (its callback is internal, the order in which it fires is not observable)']
-ASSUMPTIONS = ['interval >= 1 ms (the property quantifies over d >= 1; C02_pass_endless_counterexample: interval 0 persistent never leaves the pass)',
+ASSUMPTIONS = ['interval >= 1 ms for the property theorems (the property quantifies over d >= 1; C02_pass_endless_counterexample: interval 0 persistent never '
+               'leaves the pass; C02_wide_negative_interval / C02_wide_zero_interval state what the code does with d <= 0, tied by wide cases)',
                'a timer object is not destroyed from inside its own callback (TimerPool defers that delete itself)',
-               'uint64 millisecond arithmetic does not overflow; doAt only for time points 1..100000 ms ahead of the system clock '
-               '(a non-positive difference reaches addTimer as a huge unsigned interval)',
+               'clock readings are below 2^63 ms (the steady clock is an int64 count of nanoseconds: < 2^44 ms) and intervals are non-negative longs: '
+               'then no 64-bit deadline wraps (C02_wide_deadline_exact, C02_wide_rearm_exact; C02_wide_wrap_counterexample beyond); doAt in the '
+               'abstract model only for time points 1..100000 ms ahead of the system clock (a time point in the past is doAfter(negative): wide cases)',
+               'every live deadline is > 0 (proved from now >= 1 and non-negative intervals: WInv; C02_wide_delete_counterexample for a live deadline 0)',
                'TimerPool theorems doAfter_once/doEvery_nth/all_timers: timers are used only through the TimerPool (puSteps, decidable)']
 RULE = ('scripts of timer objects (callback bodies = lists of init/enable/disable/destroy/newTimerEvent on any object, nested scripts for timers '
         'created inside callbacks) + API ops + clock advances with one loop pass each, on the real epoll/select loop under a virtual clock; '
         'TimerPool cases: doAfter/doEvery/doAt/cancel/cleanup from outside and inside callbacks (re-arming, self-cancel, cleanup inside a '
         'callback), system-clock jumps; non-trivial = at least one pass served >= 2 callbacks or a callback changed another armed timer or made '
         'a TimerPool call (driver tags tie/catchup/cb-removed-other/cb-armed-other/cb-doAfter/cb-doEvery/cb-cancel/cb-cleanup/cb-new); '
-        'distinct = distinct op text')
+        'round 3: boundary family (intervals and remaining times 2^31-2..2^31+2, 2^32-2..2^32+2, 25/30/49/50 days, 2^62 ms; the long timer becomes the '
+        'heap front; passes with only it pending woken by a next-function or out of the engine wait; clock jumps to R ms / 1 ms before / onto the '
+        'deadline; persistent ones fire twice), idle passes (the timeout handed to epoll_wait / select is observed: never for ever, never past the '
+        'deadline, valid timeval at property level, exact value at model level), wide cases (any signed interval incl. negative and zero); also '
+        'non-trivial: an idle pass with a timer pending, a callback in a wide case, an interval in a boundary class; distinct = distinct op text')
 HARNESS_ENV = None
 
 
 def gen_case(rng, nops):
     nobj = rng.choice([1, 2, 3, 4, 6, 9, 12])
     ivs = rng.sample([1, 2, 3, 5, 7, 10, 20, 50], rng.choice([1, 2, 3]))   # few distinct intervals => many shared deadlines
+    if rng.random() < 0.2: ivs.append(rng.choice(BOUNDS))                  # a long timer that only ever sits in the heap (front, middle, removed)
     ops = ['engine ' + rng.choice(['epoll', 'select'])]
 
     def act(self, depth=0):
@@ -70,7 +96,9 @@ def gen_case(rng, nops):
     for _ in range(nops):
         r = rng.random()
         j = rng.randrange(nobj)
-        if r < 0.5:
+        if r < 0.08:
+            ops.append('%s %d' % (rng.choice(['idle', 'idle', 'idlex']), rng.choice([0, 1, 2, 3, 5, 7, 20])))
+        elif r < 0.5:
             ops.append('adv %d' % rng.choice([0, 1, 1, 2, 3, 5, 7, 10, 19, 20, 21, 50, 137]))
         elif r < 0.65: ops.append('en %d' % j)
         elif r < 0.78: ops.append('dis %d' % j)
@@ -101,6 +129,7 @@ def gen_pool_case(rng, nops):
     create new pool timers; cancel, cleanup; jumps of the system clock"""
     ops = ['engine ' + rng.choice(['epoll', 'select'])]
     ivs = rng.sample([1, 2, 3, 5, 7, 10], rng.choice([1, 2, 3]))
+    if rng.random() < 0.2: ivs.append(rng.choice(BOUNDS))
     made = 0
     wall = 0
     for _ in range(nops):
@@ -113,7 +142,7 @@ def gen_pool_case(rng, nops):
         elif r < 0.40:
             d = rng.choice([-50, -7, -1, 1, 4, 60]); ops.append('wall %d' % d); wall += d
         elif r < 0.8:
-            d = rng.choice([0, 1, 1, 2, 3, 5, 7, 10, 21]); ops.append('adv %d' % d); wall += d
+            d = rng.choice([0, 1, 1, 2, 3, 5, 7, 10, 21]); ops.append('%s %d' % ('idle' if rng.random() < 0.15 else 'adv', d)); wall += d
         elif r < 0.95: ops.append('pcancel %d' % rng.randrange(made + 2))
         else: ops.append('pcleanup')
     return ops
@@ -139,6 +168,79 @@ def gen_heap_case(rng):
     return ops
 
 
+DAY = 86400000
+B31, B32, B62 = 2 ** 31, 2 ** 32, 2 ** 62
+BOUNDS = [B31 - 2, B31 - 1, B31, B31 + 1, B31 + 2, B32 - 2, B32 - 1, B32, B32 + 1, B32 + 2, 25 * DAY, 30 * DAY, 49 * DAY, 50 * DAY, B62]
+REMS = [1, 2, 1000, B31 - 2, B31 - 1, B31, B31 + 1, B31 + 2, B32 - 2, B32 - 1, B32, B32 + 1, B32 + 2]
+
+
+def gen_boundary_case(rng, kind, L=None):
+    """a long timer (interval around 2^31 / 2^32 ms, 25..50 days, 2^62 ms) next to two short one-shots: the short ones fire and
+    the long one becomes the heap FRONT; passes with only the long timer pending, woken by a next-function (adv 0) or out of the
+    engine's wait (idle: the timeout handed to epoll_wait/select is observed); clock jumps to a remaining time around 2^31/2^32,
+    then to one ms before the deadline, then onto it; a persistent one fires twice.  kind: plain | pool | wide"""
+    L = L or rng.choice(BOUNDS)
+    pers = rng.random() < 0.5
+    ops = ['engine ' + rng.choice(['epoll', 'select'])]
+    jump = lambda d: '%s %d' % (rng.choice(['adv', 'idle', 'idle', 'idlex']), d)
+    if kind == 'pool':
+        arm = ['%s %d -' % ('pevery' if pers else 'pafter', L), 'pafter 5 -', 'pafter 9 -']
+        rng.shuffle(arm); ops += arm
+        long_id = arm.index([a for a in arm if a.split()[1] == str(L)][0])
+        stop = 'pcancel %d' % long_id
+    else:
+        w = 'w' if kind == 'wide' else ''
+        ops += ['wnew' if kind == 'wide' else 'new -'] * 3
+        ops += ['%sinit 0 %d %s' % (w, L, 'p' if pers else 'o'), '%sinit 1 5 o' % w, '%sinit 2 9 o' % w]
+        order = [0, 1, 2]; rng.shuffle(order)
+        ops += ['%sen %d' % (w, j) for j in order]
+        stop = '%s %d' % (rng.choice([w + 'dis', w + 'del']), 0)
+    ops += ['adv 5', 'idle 4', 'adv 0', 'idle 0', 'idle 7']          # elapsed 16: both short timers gone, the long one is the front
+    el = 16
+    if L > 6 * 10 ** 12:                                            # 2^62: the clock (int64 ns) cannot get there
+        ops += ['idle 1000000', 'adv %d' % (6 * 10 ** 12), 'adv 0', 'idle 0', stop, 'idle 3']
+        return ops
+    R = rng.choice([r for r in REMS if r < L - el])
+    ops += [jump(L - el - R), 'idle 0', 'adv 0']                     # remaining time R
+    if R > 1: ops += [jump(R - 1), 'adv 0']                          # one ms before the deadline
+    ops += [jump(1), 'adv 0']                                        # the deadline: fires exactly now
+    if pers:
+        ops += [jump(L - 1), 'idle 0', jump(1), jump(3)]             # second period
+    else:
+        if kind == 'plain': ops += ['en 0', 'adv 0', 'idle 1']       # re-enable: a fresh full interval
+        if kind == 'wide': ops += ['wen 0', 'adv 0', 'idle 1']
+    ops += [stop, 'idle 2']
+    return ops
+
+
+def gen_wide_case(rng):
+    """wide case: flat TimerEvents with ANY signed millisecond count - negative (deadline in the past, or beyond 2^63 when |d| > now),
+    zero, boundary values - next to ordinary ones; passes, idle passes, disable/destroy"""
+    ops = ['engine ' + rng.choice(['epoll', 'select'])]
+    n = rng.choice([2, 3, 4])
+    ops += ['wnew'] * n
+    now = 1000
+    for j in range(n):
+        r = rng.random()
+        if r < 0.35: d, m = rng.choice([-1, -300, -999, -1000, -1001, -5000, -B31, -B32 - 1, -B62]), 'o'
+        elif r < 0.45: d, m = 0, 'o'
+        elif r < 0.55: d, m = -rng.choice([400, 501, 1000, 2500]), 'p'       # negative persistent: now/|d| callbacks in one pass, then silent
+        elif r < 0.75: d, m = rng.choice(BOUNDS), rng.choice('op')
+        else: d, m = rng.choice([1, 3, 7, 20]), 'o'
+        ops.append('winit %d %d %s' % (j, d, m))
+    for _ in range(rng.choice([4, 8, 14])):
+        r = rng.random(); j = rng.randrange(n)
+        if r < 0.3: ops.append('wen %d' % j)
+        elif r < 0.4: ops.append('wdis %d' % j)
+        elif r < 0.45: ops.append('wdel %d' % j)
+        elif r < 0.55: ops.append('winit %d %d %s' % (j, rng.choice([-300, 0, 5, B31 + 1, B32]), 'o'))
+        elif r < 0.8:
+            d = rng.choice([0, 1, 3, 7, 20]); now += d; ops.append('adv %d' % d)
+        else:
+            d = rng.choice([0, 1, 5]); now += d; ops.append('idle %d' % d)
+    return ops
+
+
 def gen(rng, tier):
     n = 400 if tier == 'quick' else 6000
     yield ['new -', 'init 0 0 o', 'en 5', 'frob', 'new x0', 'init 0 5 q', 'adv x', 'new n[x1]', 'new n[', 'new e0,', 'new c0', 'new n[]]']   # malformed stream
@@ -157,6 +259,22 @@ def gen(rng, tier):
     yield ['pevery 3 a1[c0]', 'adv 3', 'adv 1', 'adv 3', 'adv 9']                                # a one-shot created by a periodic callback cancels its creator
     yield ['wall 50', 'pat 60 -', 'wall -30', 'adv 9', 'adv 1', 'pat 30 c0', 'pat 31 -', 'wall 1000', 'adv 1', 'pat 5 -', 'pat 200000 -']   # doAt: system clock differences, fired by the monotonic clock
     yield ['pevery 1 -', 'pafter 3 -', 'adv 10', 'pcleanup', 'adv 10', 'pevery 2 z', 'adv 2', 'adv 2']
+    # round 3: widths.  30-day one-shot reaches the heap front, only it pending, woken by a next-function and out of the engine's wait
+    yield ['new -', 'new -', 'init 0 2592000000 o', 'init 1 10 o', 'en 0', 'en 1', 'adv 10', 'adv 0', 'idle 0', 'idle 300', 'adv 2591999689', 'adv 1', 'adv 1']
+    yield ['engine select', 'pevery 2147484648 -', 'pafter 3 -', 'adv 3', 'adv 0', 'idle 5', 'idle 2147484639', 'idle 1', 'idle 2147484648', 'pcancel 0', 'idle 1']
+    yield ['wnew', 'wnew', 'winit 0 -300 o', 'winit 1 -5000 o', 'wen 0', 'adv 0', 'wen 1', 'idle 0', 'idle 5', 'wdis 1', 'idle 1']   # negative intervals
+    yield ['engine select', 'wnew', 'winit 0 -400 p', 'wen 0', 'idle 0', 'adv 5', 'wdel 0', 'wnew', 'winit 1 0 o', 'wen 1', 'adv 0', 'winit 1 0 p']
+    yield ['new -', 'init 0 7 o', 'en 0', 'idle 3', 'idle 3', 'idle 3', 'idle 1000', 'adv 7000000000000', 'idle 7000000000000', 'adv 6999999998900', 'adv 1']
+    # a pass 2^31 / 2^32 ms late with a short timer still pending: `int delay_ms` wraps, the due decision must not (fires once, no skip)
+    yield ['new -', 'new -', 'init 0 5 o', 'init 1 2147483700 p', 'en 0', 'en 1', 'adv 2147483653', 'adv 0', 'idlex 4294967300', 'adv 0', 'dis 1']
+    yield ['engine select', 'wnew', 'winit 0 5 o', 'wen 0', 'idlex 4294967301', 'idle 3', 'wen 0', 'idlex 2147483653', 'idlex 0']
+    for L in BOUNDS:
+        for kind in ('plain', 'pool', 'wide'):
+            yield gen_boundary_case(rng, kind, L)
+    for _ in range(n // 8):
+        yield gen_boundary_case(rng, rng.choice(['plain', 'pool', 'wide']))
+    for _ in range(n // 8):
+        yield gen_wide_case(rng)
     for _ in range(n):
         yield gen_case(rng, rng.choice([6, 12, 25, 50]))
     for _ in range(n // 4):
@@ -171,17 +289,23 @@ def gen(rng, tier):
 def nontrivial(ops, model_lines):
     tags = ' '.join(l for l in model_lines if l.startswith('B '))
     return 1 if any(t in tags for t in ('tie', 'catchup', 'cb-removed-other', 'cb-armed-other', 'passN', 'cb-doAfter', 'cb-doEvery',
-                                        'cb-cancel', 'cb-cleanup', 'cb-new')) else None
+                                        'cb-cancel', 'cb-cleanup', 'cb-new', 'idle-wait', 'idle-clamped', 'w-fire', 'iv~2^31', 'iv~2^32',
+                                        'iv-25..49d', 'iv>2^32')) else None
 
 
 LEVEL_TEXT = ('Lean 4 theorems over a model of the loop timer core (addTimer/deleteTimer/handleExpiredTimers + TimerEventImpl) and of TimerPool: an '
               'inductive invariant over every execution (any objects, callback scripts incl. timers created inside callbacks, clock advances, '
               'tie-breaks) yields never-early, no-skip, deadline order, one-shot-once, never-after-disable/destroy, fresh interval on re-enable; '
               'a measure argument yields termination of every pass and the exact catch-up count for intervals >= 1; a per-timer invariant yields '
-              'doAfter exactly-once / doEvery n-th not before t+n*d / cancel / cleanup / stale tokens for the TimerPool; tied to the real loop on '
-              'every run by a trace acceptor replaying the callbacks of the real epoll/select loop (virtual clocks) as model steps')
-LEVEL_NOTE = ('trusted: Lean kernel, hand-written model + trace-acceptor tie (coverage bounded by the generator, measured), libstdc++ heap algorithms, '
-              'clock interposition, the cabinet contract (proved in C08); sub-millisecond earliness and the select engine\'s tv_usec rounding are '
-              'outside a millisecond clock; exitLoop(wait) exit timer not driven separately')
+              'doAfter exactly-once / doEvery n-th not before t+n*d / cancel / cleanup / stale tokens for the TimerPool; a width-faithful layer '
+              '(UInt64 deadlines, Int64 intervals and waits, int delay_ms, epoll clamp, select timeval) on an explicit heap used through the C++ '
+              'standard contract of push_heap/pop_heap/make_heap: deadlines exact for every 64-bit now/interval below the wrap, due decision at full '
+              'width, wait bound for both engines, deleteTimer removes exactly the addressed record, each primitive refines the abstract model; tied '
+              'to the real loop on every run by a trace acceptor replaying the callbacks of the real epoll/select loop (virtual clocks) as model steps')
+LEVEL_NOTE = ('trusted: Lean kernel, hand-written model + trace-acceptor tie (coverage bounded by the generator, measured), that libstdc++ heap algorithms '
+              'meet the standard contract, clock and epoll_wait/select interposition, the cabinet contract (proved in C08); the wide layer refines the '
+              'abstract model primitive by primitive (no whole-execution simulation); sub-millisecond earliness is outside a millisecond clock; the '
+              'select engine hands milliseconds over as tv_usec (wakes early, goes round again, cannot oversleep: C02_wait_bound_select); exitLoop(wait) '
+              'exit timer not driven separately')
 TECHNIQUE = 'Lean 4 invariant + measure proofs over all executions of a timer model + trace-acceptor correspondence with the real loop'
 DESIGN_REF = 'DESIGN.md §6 C02'
